@@ -37,6 +37,16 @@ Later additions (seeded changes C14-1, C14-2, C25-2, C05-2 passed the first vers
     Seeded C25-2 -> :track-window:cached-item. HEAD itself loses such an update for keys NOT classified warm at trackKeys
     time (:track-window:same-version, :zero; TLC liveness counterexample live_split_head.cfg; candidate fix
     spec/SharedPoll/c25_track_window.fix.diff, with it the code matches the reference with 0 drift).
+  * free-run rule (FRAMEWORK.md rule 9) in the sharedpoll replay: a disagreement with the model (frames, a gate not
+    reached) is remembered, everything parked is released, every key gets a new payload (backend change + publish +
+    notification) and the at-rest obligation decides: a tracking connection without the newest payload = violation
+    stale-after-publish[:track-window:<class>|:free-run]; only otherwise the difference is reported as drift. The same
+    closing phase runs after every witness schedule. Seeded C25-4 (unfiltered revoke drops the pendingHubJoin guard;
+    AsCoded "revoke-ignores-pending", invariant HubHasEntry, witness ascoded_revoke.cfg) -> :track-window:revoke-during-track.
+  * SubClose.tla + harness mode subclose (shared-poll SUBSCRIBE vs close(), the 5 s gate timeout an explicit action, real
+    5 s waited out in the replay) in c05_keyed: seeded C05-3 -> keyed-subscribe-finishes-after-close:wait-timeout; HEAD
+    itself leaks presence + a late join when close() runs between the finalize's commit and setupMapPresenceAndJoin
+    (:options / :processed; candidate fix spec/SharedPoll/c05_subscribe_presence.fix.diff).
   * TrackClose.tla + harness mode trackclose + c05_keyed(c) for C05 (called from fam/lifecycle.py); HEAD defect fixed by
     /repo fe4f9531 (spec/SharedPoll/c05_track_join.fix.diff).
 
@@ -235,7 +245,7 @@ def c25(c):
     cfgs += ['quick_split.cfg', 'live.cfg', 'live_vl.cfg', 'live_split.cfg']
     jobs = [_exh(c, 'SharedPoll', 'SharedPoll', x, workers=1 if quick else 2) for x in cfgs]
     nj = len(jobs)
-    wcfgs = ['ascoded_flip.cfg', 'ascoded_removal.cfg', 'ascoded_epoch.cfg', 'scn_window_cached.cfg']
+    wcfgs = ['ascoded_flip.cfg', 'ascoded_removal.cfg', 'ascoded_epoch.cfg', 'scn_window_cached.cfg', 'ascoded_revoke.cfg']
     jobs += [_witness(c, 'SharedPoll', 'SharedPoll', x) for x in wcfgs]
     n = 160 if quick else 1500
     sims = (('sim_v.cfg', True, n), ('sim_flip.cfg', True, n // 4), ('sim_vl.cfg', False, n // 2),
@@ -271,17 +281,26 @@ def c05_keyed(c):
     out = _par([_exh(c, 'SharedPoll', 'TrackClose', 'tc_ref.cfg'),
                 _witness(c, 'SharedPoll', 'TrackClose', 'tc_seeded.cfg'),
                 _witness(c, 'SharedPoll', 'TrackClose', 'tc_head.cfg'),
-                _sim(c, 'SharedPoll', 'TrackClose', 'tc_sim.cfg', 120 if c.tier == 'quick' else 1200, 14)])
-    res = c.harness(binp, 'trackclose', {'behaviours': [out[1], out[2]] + out[3]}, timeout=900)
-    for v in res.get('violations') or []:
-        if v.get('prop') == 'C05':
-            c.violation(v.get('sig', ''), v.get('what', ''), v.get('replay'))
-    for d in res.get('drifts') or []:
-        c.drifts.append(d)
-    c.cov['traces_validated_against_impl'] += res['completed']
-    c.cov['evaluations'] += res['executed']
-    c.cov['distinct_nontrivial'] += res['nontrivial']
-    c.cov['samples'] += res['samples'][:1]
+                _sim(c, 'SharedPoll', 'TrackClose', 'tc_sim.cfg', 120 if c.tier == 'quick' else 1200, 14),
+                # the keyed SUBSCRIBE against close(): SubClose.tla (reserve / OnSubscribe callback / finalize with the
+                # closed re-check / options / reply / presence + join; close() waiting on the reservation gate, its 5 s
+                # timeout an explicit action). The replay waits out the real 5 s: few behaviours, side by side.
+                _exh(c, 'SharedPoll', 'SubClose', 'sc_ref.cfg'),
+                _witness(c, 'SharedPoll', 'SubClose', 'sc_seeded.cfg'),
+                _witness(c, 'SharedPoll', 'SubClose', 'sc_head.cfg'),
+                _witness(c, 'SharedPoll', 'SubClose', 'sc_scn.cfg'),
+                _sim(c, 'SharedPoll', 'SubClose', 'sc_sim.cfg', 3 if c.tier == 'quick' else 24, 10)], width=5)
+    for mode, behs in (('trackclose', [out[1], out[2]] + out[3]), ('subclose', [out[5], out[6], out[7]] + out[8])):
+        res = c.harness(binp, mode, {'behaviours': behs}, timeout=900)
+        for v in res.get('violations') or []:
+            if v.get('prop') == 'C05':
+                c.violation(v.get('sig', ''), v.get('what', ''), v.get('replay'))
+        for d in res.get('drifts') or []:
+            c.drifts.append(d)
+        c.cov['traces_validated_against_impl'] += res['completed']
+        c.cov['evaluations'] += res['executed']
+        c.cov['distinct_nontrivial'] += res['nontrivial']
+        c.cov['samples'] += res['samples'][:1]
     c.assumptions += ['keyed track path: one connection, one key; gates only where the code calls the application (OnTrack, GetSharedPollChannelOptions, '
                       'OnCommandProcessed); close / unsubscribe run to completion while the track command is parked']
 
